@@ -8,6 +8,7 @@ CONSTANTS
   BaseKey = FALSE
   AliasProps = FALSE
   CacheBeforeMember = TRUE
+  NoImportFallback = FALSE
   Faults = FALSE
 INVARIANT PureResults
 INVARIANT KeyInjective
